@@ -3,7 +3,7 @@
 # context summary (axioms, type-in-type, unsafe fixpoints, assumed positivity).  Takes 10-40 minutes.
 cd /verif/coq || exit 2
 mods=""
-for f in theories/Props/C*.v theories/Inst/C*_inst.v; do
+for f in theories/Props/C*.v theories/Inst/C*.v; do
   m=$(echo "$f" | sed 's#theories/#Bandit.#; s#/#.#g; s#\.v$##')
   mods="$mods $m"
 done
